@@ -48,6 +48,9 @@ def _gen_case_a(seed: int, tier: str, index: int) -> Dict[str, Any]:
     nresp = rng.choice([0, 1, 1, 2, 3, 4, 6]) if profile != "none" else rng.choice([0, 0, 1])
     if profile == "lossy":
         net["loss"] = rng.choice([0.2, 0.5, 0.8])
+        # ... and some of the discovery's own sendto() calls fail (ENETUNREACH while the network comes up): asyncio reports that through
+        # error_received() and the endpoint stays usable -- to the discovery it is one more lost broadcast
+        net["send_error_p"] = random.Random(mix(seed, "c15.senderr")).choice([0.0, 0.2, 0.5])
     if profile == "stall":
         loop_cfg.update(cost_stall_p=0.02, cost_stall_min=0.02, cost_stall_max=rng.choice([0.2, 0.6, 1.5]))
     use_real = rng.random() < 0.5 and nresp > 0
@@ -304,6 +307,16 @@ async def scenario(world: WorldA) -> None:
                 sig = "missing-spa:name-with-separator" if "|" in name else "missing-spa"
                 world.violate(PROP, "missing-spa", f"spa {ident!r} (name {name!r}) answered at {t:.3f} (handled by {h:.3f}) but is "
                               f"not listed ({ctx})", sig=sig)
+        # ---- it keeps asking: one broadcast (attempt) every 1.1 s for as long as the run lasts ---------------------------------
+        asked = [r for r in world.net.history if r.src == tr.local and r.data == b"<HELLO>1</HELLO>" and S - 1e-6 <= r.t <= T_ret + 1e-6]
+        if any(r.fate == "send_error" for r in asked):
+            res.probe("a_broadcast_of_the_discovery_failed_in_sendto")
+        want_asked = int((T_ret - S - stall) / 1.1)
+        n_asked = int(getattr(tr, "sent", len(asked)))       # sendto() calls on the discovery's endpoint (a broadcast nobody hears leaves no record)
+        if n_asked < want_asked:
+            world.violate(PROP, "missing-spa", f"the discovery ran for {T_ret - S:.2f}s (stall {stall:.2f}s) but asked only {n_asked} time(s) "
+                          f"(a broadcast every 1.1 s: at least {want_asked}); send errors among them: {sum(1 for r in asked if r.fate == 'send_error')} ({ctx})",
+                          sig="missing-spa:discovery-stopped-asking")
         # ---- termination ------------------------------------------------------------------------------------
         if T_ret > S + timeout + 2 * P + stall:
             world.violate(PROP, "overran-timeout", f"discovery returned {T_ret - S:.3f}s after start, timeout {timeout}s ({ctx})")
@@ -382,7 +395,7 @@ ASSUMPTIONS = [
     "the hello consumer takes one queued reply per polling interval; 'answered by the time of return' allows that service time",
     "two spas never share an identifier",
 ]
-PROBES = ["reply_from_another_port", "spa_without_a_name_listed", "discovery_in_active_mode", "discovery_in_active_mode_shipped_tables", "blocking_locator", "identifier_given_as_bytes", "second_discovery_in_one_process", "name_with_separator", "duplicate_replies", "reply_after_return", "nothing_listed", "three_or_more_listed", "returned_on_requested_spa"]
+PROBES = ["reply_from_another_port", "a_broadcast_of_the_discovery_failed_in_sendto", "spa_without_a_name_listed", "discovery_in_active_mode", "discovery_in_active_mode_shipped_tables", "blocking_locator", "identifier_given_as_bytes", "second_discovery_in_one_process", "name_with_separator", "duplicate_replies", "reply_after_return", "nothing_listed", "three_or_more_listed", "returned_on_requested_spa"]
 N_QUICK = 60000
 
 
